@@ -34,11 +34,13 @@ PROPS: dict[str, Spec] = {}
 PROPS["C17"] = Spec(
     engine="harness.engines.config_merge",
     rule="pairs of nested dicts built from a small colliding key pool (depth<=4; scalars, lists, None, dicts, "
-    "empty dicts, dotted and empty keys; None for either argument); oracle = independent reference deep merge + "
-    "purity (deep-copy equality and id() graph of nested dicts) + algebraic laws; non-trivial = a dict/dict "
+    "empty dicts, dotted and empty keys; None for either argument; the same sub-dict at two places of an argument; the "
+    "whole pair optionally 1..100 levels down a chain of dict/dict collisions; optionally a second merge of the same "
+    "argument objects after an in-place change of an argument or of a freshly merged part of the first result); oracle "
+    "= independent reference deep merge + purity (deep-copy equality and id() graph of nested dicts) + algebraic laws; non-trivial = a dict/dict "
     "collision at depth>=2 or a dict/scalar collision; distinct = distinct canonical JSON of the pair",
-    bounds={"quick": "depth<=4, <=4 keys per level, 4x3000 generated pairs + exhaustive small scope depth<=1",
-            "thorough": "depth<=4, <=5 keys per level, 16x150000 generated pairs + exhaustive small scope: all pairs of "
+    bounds={"quick": "depth<=4 (+<=100 wrapping levels), <=4 keys per level, 4x3000 generated pairs + exhaustive small scope depth<=1",
+            "thorough": "depth<=4 (+<=100 wrapping levels), <=5 keys per level, 16x150000 generated pairs + exhaustive small scope: all pairs of "
             "dicts over keys {a,b}, leaves {1,None,[],{}}, depth<=2"},
     quick_cases=3000,
     thorough_cases=150000,
